@@ -18,15 +18,12 @@ def connEnqueue (cid : Nat) (it : KItem) : M Bool := do
 /-- `EventSubscription.Enqueue`. -/
 def cacheEnqueue (eid : Nat) (it : CItem) : M Unit := do
   let st ← nextStamp
-  modEntry eid fun e => { e with queue := e.queue ++ [(st, it)] }
+  modEntry eid fun e => e.push st it
 
 /-- `EventSubscription.enqueueUnlock`. -/
 def cacheEnqueueUnlock (eid : Nat) (it : LItem) : M Unit := do
   let st ← nextStamp
-  modEntry eid fun e =>
-    match e.locks with
-    | some (cap, pend) => { e with locks := some (cap, pend ++ [(st, it)]) }
-    | none => { e with locks := some (0, [(st, it)]) }   -- append to a nil slice (unreachable)
+  modEntry eid fun e => e.pushUnlock st it
 
 /-- `EventSubscription.removeCount` (+ gauge, not modelled). -/
 def removeCount (eid : Nat) (n : Int) : M Unit := do
@@ -107,25 +104,24 @@ def runJob (job : Job) : M Unit := do
 /-- `Throttle.Add`. -/
 def throttleAdd (th : Nat) (job : Job) : M Unit := do
   let t ← getThrottle th
-  if t.running ≥ t.limit then
+  if t.full then
     let jid ← fresh
     modify fun g => { g with jobs := g.jobs ++ [(jid, job)] }
-    setThrottle th { t with queue := t.queue ++ [jid] }
+    setThrottle th (t.enqueue jid)
   else
-    setThrottle th { t with running := t.running + 1 }
+    setThrottle th t.start
     runJob job
 
 /-- `Throttle.Done`. -/
 def throttleDone (th : Option Nat) : M Unit := do
   let some th := th | return ()
   let t ← getThrottle th
-  if t.running ≤ 0 then
-    doPanic "throttle: negative running counter"
-  else match t.queue with
-    | [] => setThrottle th { t with running := t.running - 1 }
-    | jid :: q =>
-      setThrottle th { t with queue := q }
-      let job := tget (← get).jobs jid
-      runJob job
+  match t.done with
+  | none => doPanic "throttle: negative running counter"
+  | some (t', none) => setThrottle th t'
+  | some (t', some jid) =>
+    setThrottle th t'
+    let job := tget (← get).jobs jid
+    runJob job
 
 end Resgate.Gw
